@@ -1071,6 +1071,288 @@ def run_rsa(ctx, eng, cases, meta, rsa_cache):
                 viol(ctx, 'verify_signature', 'verify with exactly the Sign parameters reports invalid', p, {})
 
 
+# ============================================================================ through the server engine handlers
+def srv_outcome(item):
+    if item['status'] == 'SUCCESS':
+        return 'done'
+    return {'INVALID_FIELD': 'IF', 'CRYPTOGRAPHIC_FAILURE': 'CF', 'GENERAL_FAILURE': 'crash:GENERAL_FAILURE'}.get(
+        item['reason'], 'kmip:' + str(item['reason']))
+
+
+def hx(x):
+    return None if x is None else bytes.fromhex(x)
+
+
+def run_server(ctx, cases, meta, rsa_cache):
+    """The same grid points through _process_encrypt/_decrypt/_mac/_derive_key/_get(wrap)/_sign/_signature_verify/_create*.
+    The handlers must hand the payload fields to the CryptographyEngine unchanged: same plan, same bytes."""
+    import kdrv
+    from kmip.core import objects as co, attributes as ca
+    rng = ctx.subrng('server')
+    t = tables()
+    CM = enums.CryptographicUsageMask
+    srv = kdrv.Engine(workdir=ctx.work)
+    quick = ctx.tier == 'quick'
+
+    def req(item):
+        del REC[:]
+        r = srv.request([item], version=(1, 4))
+        it = r['items'][0]
+        return srv_outcome(it), it, list(REC)
+
+    def reg_sym(alg, key, mask):
+        o, it, _ = req(kdrv.register(secret=kdrv.symmetric_key_secret(key, alg, len(key) * 8), mask=mask))
+        if o != 'done':
+            return None         # registration is not this property's concern
+        uid = kdrv.first_uid(it)
+        req(kdrv.activate(uid))
+        return uid
+    try:
+        allmask = [CM.ENCRYPT, CM.DECRYPT, CM.MAC_GENERATE, CM.DERIVE_KEY, CM.WRAP_KEY]
+        # ---------------- Encrypt / Decrypt
+        tuples = sym_tuples(ctx, ctx.subrng('server-grid'))
+        if quick:
+            tuples = [x for k, x in enumerate(tuples) if k % 4 == rng.randrange(4)]
+        uids = {}
+        for ti, tp in enumerate(tuples):
+            alg = tp['alg']
+            if alg is None or alg.value not in t['sym']:
+                kalg, bits = A.AES, 128
+            else:
+                kalg, bits = alg, tp['bits']
+            if bits == 24:
+                continue        # such a key cannot be told apart from registration problems
+            kk = (kalg, bits)
+            if kk not in uids:
+                key = rbytes(rng, bits // 8)
+                uids[kk] = (reg_sym(kalg, key, allmask), key)
+            uid, key = uids[kk]
+            if uid is None:
+                continue
+            lens = msg_lengths(alg)
+            msg = rbytes(rng, lens[ti % 6])
+            iv = make_iv(rng, tp)
+            p = dict(alg=alg, key=key, mode=tp['mode'], pad=tp['pad'], iv=iv, aad=tp['aad'], taglen=tp['taglen'])
+            cpar = kdrv.crypto_params(cryptographic_algorithm=alg, block_cipher_mode=tp['mode'], padding_method=tp['pad'],
+                                      tag_length=tp['taglen'])
+            o, it, calls = req(kdrv.encrypt(uid, cpar, data=msg, iv=iv, aad=tp['aad']))
+            ctx.count('server.encrypt.%s' % o.split(':')[0])
+            ctx.case_seen(('srv-enc', pj(p), len(msg)))
+            if o.startswith('kmip:'):
+                viol(ctx, 'Encrypt', 'handler answered ' + o, p)
+                continue
+            pl = it['payload'] or {}
+            ct, iv_ret, tag = hx(pl.get('data')), hx(pl.get('iv_counter_nonce')), hx(pl.get('auth_tag'))
+            c = last_call(calls, 'cipher')
+            in_coq = len(msg) <= 64
+            if in_coq:
+                cases.append('KEnc %s %s %s %s %s %s %s false' % (
+                    enc_params_term(p), cp.byts(msg), outcome_term(o), call_term(c, key), ob(iv_ret),
+                    oz(None if tag is None else len(tag)), cp.z(-1 if ct is None else len(ct))))
+                meta.append(('server/encrypt', pj(p), len(msg), o))
+            if o != 'done':
+                continue
+            used_iv = iv_ret if iv_ret is not None else iv
+            ref = ref_encrypt(p, used_iv, msg)
+            if ref is not None and (ref[0] != ct or (ref[1] is not None and tag != ref[1][:len(tag or b'')])):
+                viol(ctx, 'Encrypt', 'response differs from the independent reference', p, {'msg': msg.hex()[:200]})
+            o2, it2, calls2 = req(kdrv.decrypt(uid, cpar, data=ct, iv=used_iv, aad=tp['aad'], tag=tag))
+            pl2 = it2['payload'] or {}
+            out = hx(pl2.get('data'))
+            ctx.count('server.decrypt.%s' % o2.split(':')[0])
+            if o2 != 'done' or out != msg:
+                viol(ctx, 'Decrypt', 'Decrypt does not invert Encrypt through the server', p, {'msg': msg.hex()[:200], 'outcome': o2})
+            if in_coq:
+                dp = dict(p, iv=used_iv)
+                cases.append('KDec %s %s %s %s %s false' % (
+                    enc_params_term(dp, dec_tag=tag), cp.byts(ct), outcome_term(o2), call_term(last_call(calls2, 'cipher'), key),
+                    cp.byts(out if o2 == 'done' and out is not None else b'')))
+                meta.append(('server/decrypt', pj(dp), len(ct), o2))
+            if tp['mode'] == M.GCM and tag:
+                for label, kw in (('ct', dict(data=flip(ct) if ct else b'\x00', tag=tag, aad=tp['aad'])),
+                                  ('tag', dict(data=ct, tag=flip(tag), aad=tp['aad'])),
+                                  ('aad', dict(data=ct, tag=tag, aad=flip(tp['aad']) if tp['aad'] else b'x'))):
+                    if label == 'ct' and not ct:
+                        continue
+                    o3, it3, _ = req(kdrv.decrypt(uid, cpar, iv=used_iv, **kw))
+                    if o3 == 'done':
+                        viol(ctx, 'Decrypt', 'GCM accepted a modified %s through the server' % label, p, {})
+        # ---------------- MAC
+        hm = dict(t['T']['hmac'])
+        for alg in [A.HMAC_SHA1, A.HMAC_SHA224, A.HMAC_SHA256, A.HMAC_SHA384, A.HMAC_SHA512, A.HMAC_MD5,
+                    A.AES, A.TRIPLE_DES, A.BLOWFISH, A.CAMELLIA, A.CAST5, A.IDEA, A.RC4, A.RSA]:
+            kalg = alg if alg.value in t['sym'] else A.AES
+            key = rbytes(rng, 16)
+            uid = reg_sym(kalg, key, allmask)
+            if uid is None:
+                continue
+            for ln in msg_lengths(kalg)[1:]:
+                data = rbytes(rng, ln)
+                o, it, calls = req(kdrv.mac(uid, kdrv.crypto_params(cryptographic_algorithm=alg), data=data))
+                ctx.count('server.mac.%s' % o.split(':')[0])
+                ctx.case_seen(('srv-mac', alg.name, ln))
+                v = hx((it['payload'] or {}).get('mac_data'))
+                c = last_call(calls)
+                if c is not None and c['k'] not in ('hmac', 'cmac'):
+                    c = None
+                if ln <= 64:
+                    cases.append('KMac %s %s %s %s %s %s' % (cp.z(alg.value), cp.byts(key), cp.byts(data), outcome_term(o),
+                                                          call_term(c, key), cp.z(len(v) if o == 'done' else -1)))
+                    meta.append(('server/mac', {'alg': alg.name, 'key': key.hex()}, ln, o))
+                if o == 'done':
+                    if alg.value in hm:
+                        ref = R.hmac_fn(hm[alg.value])(key, data)
+                    else:
+                        enc, _, bs = R.block_fns(t['sym'][alg.value][0], key)
+                        ref = R.cmac(enc, bs, data)
+                    if ref != v:
+                        viol(ctx, 'MAC', 'response differs from the independent reference', {'alg': alg, 'key': key}, {'data': data.hex()[:200]})
+        # ---------------- DeriveKey (+ the handler's length step) and Get with a wrapping specification
+        base_key = rbytes(rng, 16)
+        base = reg_sym(A.AES, base_key, allmask)
+        kek_key = rbytes(rng, 32)
+        kek = reg_sym(A.AES, kek_key, allmask)
+        hid_of = dict(t['T']['hash'])
+        dtuples = []
+        for method in (D.HMAC, D.HASH, D.PBKDF2, D.NIST800_108_C):
+            for h in (H.MD5, H.SHA_1, H.SHA_224, H.SHA_256, H.SHA_384, H.SHA_512):
+                for bits in (128, 64, 256, 8 * R.DIGEST[hid_of[h.value]] + 64):
+                    dtuples.append((method, h, bits))
+        for mode, pad in ((M.CBC, P.PKCS5), (M.ECB, P.ANSI_X923), (M.CTR, None), (M.CFB, None)):
+            for bits in (64, 128, 256):
+                dtuples.append((D.ENCRYPT, (mode, pad), bits))
+        for method, h, bits in dtuples:
+            data = rbytes(rng, 24)
+            salt = rbytes(rng, 8)
+            nbytes = bits // 8
+            if method == D.ENCRYPT:
+                mode, pad = h
+                iv = rbytes(rng, 16)
+                cpar = kdrv.crypto_params(cryptographic_algorithm=A.AES, block_cipher_mode=mode, padding_method=pad)
+                dpar = ca.DerivationParameters(cryptographic_parameters=cpar, initialization_vector=iv, derivation_data=data)
+                prim = ref_encrypt(dict(alg=A.AES, key=base_key, mode=mode, pad=pad, aad=None), iv, data)[0]
+                pdesc = dict(method=method, mode=mode, pad=pad, bits=bits)
+            else:
+                hid = hid_of[h.value]
+                with_data = method != D.HASH       # the handler always supplies the key: HASH needs the data absent
+                dpar = ca.DerivationParameters(cryptographic_parameters=kdrv.crypto_params(hashing_algorithm=h),
+                                               derivation_data=data if with_data else None,
+                                               salt=salt if method in (D.PBKDF2, D.HMAC) else None,
+                                               iteration_count=3 if method == D.PBKDF2 else None)
+                prim = ref_derive(dict(method=method, len=nbytes, data=data if with_data else None, key=base_key, salt=salt, iters=3), hid)
+                pdesc = dict(method=method, hash=h, bits=bits)
+            attrs = kdrv.sym_attrs(A.AES, bits, [CM.ENCRYPT])
+            o, it, calls = req(kdrv.derive_key([base], method, dpar, attrs=attrs))
+            ctx.count('server.derive.%s.%s' % (method.name, o.split(':')[0]))
+            ctx.case_seen(('srv-derive', pj(pdesc)))
+            stored = b''
+            if o == 'done':
+                o2, it2, _ = req(kdrv.get(kdrv.first_uid(it)))
+                stored = hx(it2['payload']['secret']['key_block']['key_value']['key_material'])
+                if len(stored) != nbytes:
+                    viol(ctx, 'DeriveKey', 'derived key material does not have exactly the requested length', pdesc, {'len': len(stored)})
+                if stored != prim[:nbytes]:
+                    viol(ctx, 'DeriveKey', 'derived key differs from the independent reference', pdesc, {'got': stored.hex(), 'ref': prim[:nbytes].hex()})
+                # key wrapping of the derived key
+                if nbytes in (16, 24, 32, 8):
+                    spec = co.KeyWrappingSpecification(
+                        wrapping_method=W.ENCRYPT,
+                        encryption_key_information=co.EncryptionKeyInformation(
+                            unique_identifier=kek, cryptographic_parameters=kdrv.crypto_params(block_cipher_mode=M.NIST_KEY_WRAP)),
+                        encoding_option=enums.EncodingOption.NO_ENCODING)
+                    o3, it3, calls3 = req(kdrv.get(kdrv.first_uid(it), wrap=spec))
+                    ctx.count('server.get_wrap.%s' % o3.split(':')[0])
+                    wv = hx(it3['payload']['secret']['key_block']['key_value']['key_material']) if o3 == 'done' else None
+                    cases.append('KWrap %s %s %s %s %s %s %s' % (oz(W.ENCRYPT.value), oz(M.NIST_KEY_WRAP.value), cp.byts(stored), cp.byts(kek_key),
+                                                               outcome_term(o3), call_term(last_call(calls3, 'wrap')), cp.z(len(wv) if wv else -1)))
+                    meta.append(('server/get-wrap', pj(pdesc), nbytes, o3))
+                    if o3 == 'done':
+                        enc, dec, _ = R.block_fns('AES', kek_key)
+                        if R.rfc3394_wrap(enc, stored) != wv or R.rfc3394_unwrap(dec, wv) != stored:
+                            viol(ctx, 'Get', 'wrapped key differs from the RFC 3394 reference', pdesc, {'got': wv.hex()})
+            elif o.startswith('kmip:'):
+                viol(ctx, 'DeriveKey', 'handler answered ' + o, pdesc)
+            # the handler's truncation step, Coq as comparator: primitive output (reference) vs what was stored
+            fin = 'done' if o == 'done' else o
+            if o in ('done', 'CF'):
+                cases.append('KFinish %s %s %s %s' % (cp.z(nbytes), cp.byts(prim), outcome_term(fin), cp.byts(stored)))
+                meta.append(('server/derive-finish', pj(pdesc), nbytes, o))
+            else:
+                viol(ctx, 'DeriveKey', 'unexpected outcome ' + o, pdesc, {'message': it['message']})
+        # ---------------- Create / CreateKeyPair / Sign / SignatureVerify
+        seen = set()
+        for alg, bits in [(A.AES, 128), (A.AES, 256), (A.TRIPLE_DES, 192), (A.BLOWFISH, 448), (A.CAMELLIA, 192), (A.CAST5, 40), (A.RC4, 256)]:
+            for _ in range(2):
+                o, it, calls = req(kdrv.create(alg, bits, mask=[CM.ENCRYPT]))
+                ctx.count('server.create.%s' % o.split(':')[0])
+                if o != 'done':
+                    viol(ctx, 'Create', 'Create of a supported (algorithm, length) failed: ' + o, {'alg': alg, 'bits': bits})
+                    continue
+                o2, it2, _ = req(kdrv.get(kdrv.first_uid(it)))
+                kv = hx(it2['payload']['secret']['key_block']['key_value']['key_material'])
+                if len(kv) * 8 != bits:
+                    viol(ctx, 'Create', 'created key material does not have the requested length', {'alg': alg, 'bits': bits}, {'len': len(kv)})
+                if kv in seen:
+                    viol(ctx, 'Create', 'created key material repeats', {'alg': alg, 'bits': bits})
+                seen.add(kv)
+        for size in ([1024] if quick else [1024, 2048]):
+            o, it, calls = req(kdrv.create_key_pair(A.RSA, size))
+            ctx.count('server.create_key_pair.%s' % o.split(':')[0])
+            if o != 'done':
+                viol(ctx, 'CreateKeyPair', 'failed: ' + o, {'size': size})
+                continue
+            pl = it['payload']
+            priv_uid, pub_uid = str(pl['private_key_unique_identifier']), str(pl['public_key_unique_identifier'])
+            req(kdrv.activate(priv_uid))
+            req(kdrv.activate(pub_uid))
+            o, it, _ = req(kdrv.create_key_pair(A.RSA, size))
+            pl2 = it['payload']
+            other_pub = str(pl2['public_key_unique_identifier'])
+            req(kdrv.activate(other_pub))
+            _, itp, _ = req(kdrv.get(pub_uid))
+            pub_bytes = hx(itp['payload']['secret']['key_block']['key_value']['key_material'])
+            combos = [dict(dsa=d, alg=None, hash=None, pad=pd) for d in (DSA.SHA1_WITH_RSA_ENCRYPTION, DSA.SHA256_WITH_RSA_ENCRYPTION, DSA.SHA512_WITH_RSA_ENCRYPTION, DSA.MD5_WITH_RSA_ENCRYPTION)
+                      for pd in (P.PSS, P.PKCS1v15)]
+            combos += [dict(dsa=None, alg=A.RSA, hash=h, pad=pd) for h in (H.SHA_1, H.SHA_224, H.SHA_256, H.SHA_384, H.SHA_512)
+                       for pd in (P.PSS, P.PKCS1v15)]
+            combos += [dict(dsa=None, alg=A.RSA, hash=H.SHA_256, pad=P.OAEP), dict(dsa=None, alg=None, hash=None, pad=P.PSS),
+                       dict(dsa=DSA.DSA_WITH_SHA1, alg=None, hash=None, pad=P.PSS), dict(dsa=None, alg=A.RSA, hash=H.SHA_256, pad=None)]
+            dsa_of = {d: h for d, h, _ in t['T']['dsa']}
+            for k, q in enumerate(combos):
+                msg = rbytes(rng, [0, 1, 15, 16, 17, 1000][k % 6])
+                cpar = kdrv.crypto_params(digital_signature_algorithm=q['dsa'], cryptographic_algorithm=q['alg'],
+                                          hashing_algorithm=q['hash'], padding_method=q['pad'])
+                o, it, calls = req(kdrv.sign(priv_uid, cpar, data=msg))
+                ctx.count('server.sign.%s' % o.split(':')[0])
+                ctx.case_seen(('srv-sign', size, pj(q)))
+                cases.append('KSign %s %s %s' % (sig_params_term(q, True), outcome_term(o), call_term(last_call(calls, 'rsasig'))))
+                meta.append(('server/sign', dict(pj(q), size=size), len(msg), o))
+                if o != 'done':
+                    continue
+                sig = hx(it['payload']['signature_data'])
+                hid = dsa_of.get(ev(q['dsa'])) if q['dsa'] is not None else hid_of.get(ev(q['hash']))
+                kind = 'PSS' if q['pad'] == P.PSS else 'PKCS1'
+                if not R.rsa_verify(pub_bytes, kind, hid, msg, sig):
+                    viol(ctx, 'Sign', 'the reference verifier rejects the signature', q, {'size': size})
+
+                def sv(uid, m, s_):
+                    o_, it_, calls_ = req(kdrv.signature_verify(uid, cpar, data=m, signature=s_))
+                    return o_, (it_['payload'] or {}).get('validity_indicator'), calls_
+                o1, v1, calls1 = sv(pub_uid, msg, sig)
+                cases.append('KVerify %s %s %s' % (sig_params_term(q, True), outcome_term(o1), call_term(last_call(calls1, 'rsasig'))))
+                meta.append(('server/verify', dict(pj(q), size=size), len(msg), o1))
+                if o1 != 'done' or v1 != 'VALID':
+                    viol(ctx, 'SignatureVerify', 'signature by Sign with the matching key of the pair is not VALID', q, {'outcome': o1, 'validity': v1})
+                o2, v2, _ = sv(pub_uid, flip(msg) if msg else b'x', sig)
+                if o2 != 'done' or v2 != 'INVALID':
+                    viol(ctx, 'SignatureVerify', 'signature over a different message is not INVALID', q, {'outcome': o2, 'validity': v2})
+                o3, v3, _ = sv(other_pub, msg, sig)
+                if o3 != 'done' or v3 != 'INVALID':
+                    viol(ctx, 'SignatureVerify', 'signature checked with the key of another pair is not INVALID', q, {'outcome': o3, 'validity': v3})
+    finally:
+        srv.close()
+
+
 # ============================================================================ run
 def run(ctx):
     logging.disable(logging.CRITICAL)
@@ -1104,6 +1386,7 @@ def run(ctx):
         run_wrap(ctx, eng, cases, meta)
         run_create(ctx, eng, cases, meta, rsa_cache)
         run_rsa(ctx, eng, cases, meta, rsa_cache)
+        run_server(ctx, cases, meta, rsa_cache)
         ctx.log('built %d Coq cases' % len(cases))
         bad = ctx.run_cases('plans', HEADER, cases, 'check_ccase', what='outcome class + observed primitive call vs Crypto/Plan.v')
         for i in bad[:20]:
